@@ -85,6 +85,64 @@ theorem zipLongest_entries {α : Type} (ls : List (List α)) (row : List (Option
     · obtain ⟨x, hx⟩ := Option.isSome_iff_exists.1 (by simp [List.getLast?_isSome, he] : (ls[i]).getLast?.isSome = true)
       exact ⟨x, List.mem_of_getLast? hx, hx⟩
 
+theorem mem_of_mem_takeWhile {α : Type} (p : α → Bool) : ∀ (l : List α) (x : α), x ∈ l.takeWhile p → x ∈ l
+  | [], _, h => by simp at h
+  | a :: as, x, h => by
+    rw [List.takeWhile_cons] at h
+    split at h
+    · rcases List.mem_cons.1 h with h | h
+      · exact List.mem_cons.2 (Or.inl h)
+      · exact List.mem_cons.2 (Or.inr (mem_of_mem_takeWhile p as x h))
+    · cases h
+
+/-- **the nested colour specification**: every option `iter_color_spec_options` generates — base
+    format as it is, a preset other than 0, or index 0 with custom primaries / matrix / transfer function,
+    each of those again "as preset 0 says" or explicit — decodes to the requested triple and passes the
+    level's checks at both levels of nesting -/
+theorem color_spec_options_decode_to_target (base target : List Int) (presets : List (Nat × List Int)) (L : CsLevel)
+    (h3 : target.length = 3) (hk : (presets.map (·.1)).Nodup) (o : CsOpt) (ho : o ∈ iterColorSpec base target presets L) :
+    decodeColorSpec base presets o = some target ∧ csLevelOk L o = true := by
+  unfold iterColorSpec at ho
+  simp only [List.mem_append] at ho
+  rcases ho with (ho | ho) | ho
+  · split at ho
+    · rename_i h
+      simp only [List.mem_singleton] at ho; subst ho
+      simp only [Bool.and_eq_true, beq_iff_eq] at h
+      exact ⟨by simp [decodeColorSpec, h.1], by simp [csLevelOk, h.2]⟩
+    · cases ho
+  · simp only [List.mem_map, List.mem_filter] at ho
+    obtain ⟨p, ⟨hp, hc⟩, rfl⟩ := ho
+    simp only [Bool.and_eq_true, beq_iff_eq] at hc
+    refine ⟨?_, by simp [csLevelOk, hc.1.2, hc.2]⟩
+    simp only [decodeColorSpec]
+    rw [find_of_nodup_keys presets p hk hp]
+    simp [hc.1.1.2]
+  · split at ho
+    · rename_i h
+      simp only [Bool.and_eq_true] at h
+      simp only [List.mem_filterMap] at ho
+      obtain ⟨r, hr, hro⟩ := ho
+      have hrow := mem_of_mem_takeWhile _ _ r hr
+      obtain ⟨hlen, hent⟩ := zipLongest_entries _ r hrow
+      simp only [List.length_cons, List.length_nil] at hlen
+      -- the row has exactly three entries, all present
+      match r, hlen, hro with
+      | [some p, some m, some t], _, hro =>
+        simp only [Option.some.injEq] at hro; subst hro
+        have e0 := hent 0 (by simp) (by simp)
+        have e1 := hent 1 (by simp) (by simp)
+        have e2 := hent 2 (by simp) (by simp)
+        simp only [List.getElem_cons_zero, List.getElem_cons_succ, reduceCtorEq, and_false, false_or, Option.some.injEq, exists_eq_right'] at e0 e1 e2
+        have hp := options_decode_to_target _ _ none L.prim (by intro ps h; cases h) p e0
+        have hm := options_decode_to_target _ _ none L.mat (by intro ps h; cases h) m e1
+        have ht := options_decode_to_target _ _ none L.tf (by intro ps h; cases h) t e2
+        refine ⟨?_, by simp [csLevelOk, h.1, h.2] ; exact ⟨⟨by simpa using hp.2, by simpa using hm.2⟩, by simpa using ht.2⟩⟩
+        simp only [decodeColorSpec, hp.1, hm.1, ht.1]
+        match target, h3 with
+        | [a, b, c], _ => rfl
+    · cases ho
+
 /-! ### non-vacuity: frame rate 25/1 on a base format of 30000/1001 with presets 1..3 -/
 def lv : Level := { flag := fun _ => true, index := fun i => i != 2, value := fun _ _ => true }
 example : iterOptions [30000, 1001] [25, 1] (some [(1, [24000, 1001]), (3, [25, 1]), (2, [25, 1])]) lv
